@@ -86,6 +86,17 @@ pub fn c02_scenarios() -> Vec<Scenario> {
         Cfg { s_stream_window: Some(7), c_stream_window: Some(7), ..Cfg::default() },
         vec![StreamSpec::new(MsgSpec { use_capacity: true, ..m(&[10, 5]) }, MsgSpec { use_capacity: true, ..m(&[9]) }), StreamSpec::new(m(&[9]), m(&[9]))],
     ));
+    // a large END_STREAM frame parked in the codec (chained payload, write back-pressure) while the peer lowers the window
+    v.push(mk(
+        "lower-window-while-frame-in-codec",
+        Cfg { s_set_window: Some(16384), ..Cfg::default() },
+        vec![StreamSpec::new(m(&[32768]), m(&[1]))],
+    ));
+    v.push(mk(
+        "lower-window-while-frame-in-codec-vectored",
+        Cfg { s_set_window: Some(1000), vectored: true, ..Cfg::default() },
+        vec![StreamSpec::new(m(&[3000]), m(&[1])), StreamSpec::new(m(&[2000]), m(&[1]))],
+    ));
     v.push(mk(
         "target-window-change",
         Cfg { s_target_window: Some(100_000), ..Cfg::default() },
